@@ -29,6 +29,13 @@ class C08(SessionProp):
             {"role": 1, "calls": [[S_EXTRESP, 5, [], [], 0, b"", b"", []], [DRAIN, []]], "meta": [None] * 2},
             # a request that merely carries the notice-of-disconnection OID is still a request while BINDING
             {"role": 0, "calls": [[C_BIND, b"a", [1, b"GSSAPI", [b"x"]], []], [C_EXT, msgs.OID_NOTICE, [], []], [DRAIN, []]], "meta": [None] * 3},
+        ] + [
+            # the server's own notice of disconnection, name given as OID string / as enum member (two parities of
+            # the call's repr, see sessions._variant), then more traffic: CLOSED must be final either way
+            {"role": 1, "calls": [[RECV, msgs.pack([1, [7, b"1.2", []], []])], [S_EXTRESP, 1, [msgs.OID_NOTICE], [], 52, b"", d, []],
+                                  [RECV, msgs.pack([2, [7, b"1.2", []], []])], [S_EXTRESP, 2, [], [], 0, b"", b"", []], [UNBIND], [DRAIN, []]],
+             "meta": [None] * 6}
+            for d in (b"bye", b"bye!", b"", b"x")
         ] + sessions.boundary_histories()
 
     def finding_key(self, c, what):
